@@ -4,11 +4,13 @@ import NodisVerif.Driver.RespOps
 import NodisVerif.Model.Handler2
 import NodisVerif.Model.Handler3
 import NodisVerif.Driver.FragOps
+import NodisVerif.Driver.ProtoOps
 open NodisVerif
 
 structure DState where
   inst : List (String × Server) := []
   cur  : String := ""
+  proto : Proto.PState := {}
 
 def DState.sv (d : DState) : Server := ((d.inst.find? (·.1 == d.cur)).map (·.2)).getD {}
 def DState.putSv (d : DState) (sv : Server) : DState :=
@@ -32,6 +34,8 @@ def step (d : DState) (line : String) : DState × String :=
   | [] => (d, "")
   | "ck" :: _ | "dk" :: _ | "ev" :: _ => (d, Driver.codecOp toks)
   | "frag" :: rest => (d, Driver.fragOp rest)
+  | "pev" :: rest => let (p, out) := Driver.protoOp d.proto rest; ({ d with proto := p }, out)
+  | ["pend"] => ({ d with proto := {} }, Driver.protoEnd d.proto)
   | "open" :: id :: backend :: _ =>
     ({ d with cur := id }.putSv { store := { pebble := backend == "pebble" } }, "ok")
   | ["inst", id] => ({ d with cur := id }, "ok")
